@@ -1,6 +1,6 @@
 //! C14 — registration lookup (closed-form schemes only: N-number, JA, HL).
 use crate::src::Src;
-use rs1090::data::tail::{hl_reg, ja_reg, n_reg};
+use rs1090::data::tail::{hl_reg, ja_reg, n_reg, numeric_reg};
 
 include!("gen/patterns_tab.rs");
 
@@ -76,6 +76,26 @@ harness! {
     }
 }
 
+
+harness! {
+    #[kani::unwind(30)]
+    #[kani::stub(alloc::fmt::format, crate::stubs::fmt_stub)]
+    /// numeric_reg (RA-nnnnn, CU-Tnnnn) on ALL 2^32 arguments, with its real Lazy table (once_cell model),
+    /// its real to_string and template slicing (format! stubbed): no panic; answers exactly on the
+    /// 100 000 + 1 000 addresses of the two blocks, which lie inside Russia's / Cuba's address block
+    fn numeric_total(s) {
+        let h = s.u32();
+        let r = numeric_reg(h);
+        vcover!(r.is_some());
+        vcover!(r.is_none());
+        let ra = h >= 0x140000 && h <= 0x140000 + 99_999;
+        let cu = h >= 0x0B03E8 && h <= 0x0B03E8 + 999;
+        vassert!(r.is_some() == (ra || cu), "numeric registrations exactly on the RA- and CU-T blocks");
+        if r.is_some() { vassert!(country_tag(h) == if ra { 4 } else { 5 }, "numeric registrations only inside Russia's / Cuba's block"); }
+        core::mem::forget(r);
+    }
+}
+
 harness! {
     #[kani::unwind(30)]
     #[kani::stub(alloc::fmt::format, crate::stubs::fmt_stub)]
@@ -83,12 +103,12 @@ harness! {
     /// order, so no address gets two different national registrations)
     fn schemes_disjoint(s) {
         let h = s.u32();
-        let (a, b, c) = (n_reg(h), ja_reg(h), hl_reg(h));
-        let k = a.is_some() as u8 + b.is_some() as u8 + c.is_some() as u8;
+        let (a, b, c, d) = (n_reg(h), ja_reg(h), hl_reg(h), numeric_reg(h));
+        let k = a.is_some() as u8 + b.is_some() as u8 + c.is_some() as u8 + d.is_some() as u8;
         vcover!(k == 1);
-        vassert!(k <= 1, "at most one closed-form scheme answers");
-        core::mem::forget((a, b, c));
+        vassert!(k <= 1, "at most one of the N / JA / HL / numeric schemes answers");
+        core::mem::forget((a, b, c, d));
     }
 }
 
-registry!(ja_total_inverse, n_total, hl_total, schemes_disjoint);
+registry!(ja_total_inverse, n_total, hl_total, numeric_total, schemes_disjoint);
